@@ -14,7 +14,7 @@ CLAIMS = {
  "C01": dict(
   category="proof",
   text="Coq theorems C01_conform / C01_converse: for every grammar without @memoize/@leftrec rules (C05/C07 cover those), pure check/extern oracles, every rule, input and fuel, the model M of the generated parser (one combinator per code template + the runtime model, decision points regenerated from the source) and the PEG specification S (doc/syntax.md semantics over characters) return the same verdict with the same consumed byte prefix and value; C01_terminals: each byte-level matcher accepts exactly the character-level language; C01_literals. M is tied to the code by differential execution of real generated parsers (tree, error, complete tracer callback sequence, hook log) and the implementation is checked directly against the extracted S. Termination (well-formed => exists fuel) is not yet a theorem: partial.",
-  note=TB + "Modelled, not verified: the Rust semantics of the emitted code (M mirrors the quote! templates by reading; tied by execution). Theorems are stated for all fuel values ('if the run returns'); the termination clause of the property is covered only by the watchdog of the harness so far.",
+  note="C01_memoized extends the agreement with the PEG specification (acceptance, tree, end offset; any pair of recursion bounds) to grammars with any subset of rules marked @memoize and no @leftrec rule, through MemoEq (memoized model ~ unmarked model) and MemoSpec (the specification ignores the marker). " + TB + "Modelled, not verified: the Rust semantics of the emitted code (M mirrors the quote! templates by reading; tied by execution). Theorems are stated for all fuel values ('if the run returns'); the termination clause of the property is covered only by the watchdog of the harness so far.",
   technique="Coq simulation proof (model of generated parser vs PEG spec) + source-fact translator + differential correspondence"),
  "C02": dict(
   category="proof",
@@ -23,7 +23,7 @@ CLAIMS = {
   technique="Coq simulation proof with value relation (templates' assembly = shape of events) + differential correspondence"),
  "C03": dict(
   category="proof",
-  text="Coq: C03_lattice (the nine-row choice table, the optional and closure tables and the sequence/choice rules regenerated from the source are the documented join One < Optional < Multiple), C03_arity_sound (for every grammar, expression and input, on the successful path of the PEG semantics every field-match event belongs to a declared field, its rule type is in the declared type set of that field - so a generated enum has a variant for it - a field declared plain is matched exactly once and an Option field at most once; proved by induction over the specification's evaluation, unbounded), C03_values_fit (hence the value of every rule match can be stored in the declared type: the arity-mismatch stuck state is unreachable), C03_field_type_single / C03_field_type_enum / C03_rule_kinds (the declaration emitters: arity decides Option/Vec, `*` decides Box, several types decide the generated enum, `char` is the built-in; @string, field-less, @position, override-only rules). Correspondence: the declarations the compiler model computes == the declarations read back from the token text of the real generator, for every stream grammar and derive set. Oracle: rustc compiles every accepted grammar under #![forbid(unsafe_code)] together with exact-type assertions generated from the MODEL's declarations (exhaustive destructuring, exhaustive match, `let _: &T`), including Rust-keyword rule and field names and custom derive sets; a committed corpus (corpus/rustc) pins the known failing shapes. Partial: that rustc accepts the parse functions is observed, not proved.",
+  text="Coq: C03_lattice (the nine-row choice table, the optional and closure tables and the sequence/choice rules regenerated from the source are the documented join One < Optional < Multiple), C03_arity_sound (for every grammar, expression and input, on the successful path of the PEG semantics every field-match event belongs to a declared field, its rule type is in the declared type set of that field - so a generated enum has a variant for it - a field declared plain is matched exactly once and an Option field at most once; proved by induction over the specification's evaluation, unbounded), C03_values_fit (hence the value of every rule match can be stored in the declared type: the arity-mismatch stuck state is unreachable), C03_templates_agree_with_declarations (the model of the generated parser never reaches a shape mismatch in the value plumbing of the templates - missing field in an arm, One field without value, extend on a non-Vec - for every plain grammar, input and bound; the simulation now proves it instead of tolerating it), C03_field_type_single / C03_field_type_enum / C03_rule_kinds (the declaration emitters: arity decides Option/Vec, `*` decides Box, several types decide the generated enum, `char` is the built-in; @string, field-less, @position, override-only rules). Correspondence: the declarations the compiler model computes == the declarations read back from the token text of the real generator, for every stream grammar and derive set. Oracle: rustc compiles every accepted grammar under #![forbid(unsafe_code)] together with exact-type assertions generated from the MODEL's declarations (exhaustive destructuring, exhaustive match, `let _: &T`), including Rust-keyword rule and field names and custom derive sets; a committed corpus (corpus/rustc) pins the known failing shapes. Partial: that rustc accepts the parse functions is observed, not proved.",
   note=TB + "Quantifier as given: recursive type cycles broken by * or Vec; names not colliding with prelude or peginator items (the generator's own locals state, global, iterations, __result count as peginator items). Two open known findings (field named like a unit-struct rule; @string rule with a multi-type field), two fixed.",
   technique="Coq proof of arity soundness over the PEG specification + table facts regenerated from the source + compiler model vs generated declarations + rustc with model-generated exact-type assertions"),
  "C04": dict(
